@@ -299,9 +299,11 @@ def subchecks(tier, seed):
             for name in names:
                 for ref in (None, 0, 1, 2):
                     for atfk in ('default', 'trace', 'use_eig', 'freqdep'):
-                        for D in (2, 3, 5):
+                        for D in (2, 3, 5, 8):
                             for F in Fs:
                                 for nlead in (0, 1, 2):
+                                    if D == 8 and (atfk != 'default' or nlead == 2 or (F > 3 and not thorough)):
+                                        continue      # the largest D of the stated range: default options only
                                     core = name[:-4] if name.endswith('+ban') else name
                                     if atfk == 'freqdep' and (core.split('+')[-1] != 'wmwf' or ref is None):
                                         continue
